@@ -66,6 +66,11 @@ type ExploreStats struct {
 // Explore runs body for every choice sequence with at most bound deviations (bound < 0:
 // unlimited). body must be deterministic. stop() is polled between executions.
 func Explore(bound int, maxExec int64, stop func() bool, body func(m *MC)) ExploreStats {
+	return ExploreFrom(nil, 0, bound, maxExec, stop, body)
+}
+
+// ExploreFrom explores the subtree below a prefix that already contains devs deviations.
+func ExploreFrom(start []int, startDevs int, bound int, maxExec int64, stop func() bool, body func(m *MC)) ExploreStats {
 	var st ExploreStats
 	var rec func(prefix []int, devs int)
 	rec = func(prefix []int, devs int) {
@@ -98,8 +103,46 @@ func Explore(bound int, maxExec int64, stop func() bool, body func(m *MC)) Explo
 			}
 		}
 	}
-	rec(nil, 0)
+	rec(start, startDevs)
 	return st
+}
+
+// ExploreParallel explores the same tree as Explore, dealing the level-1 subtrees (one per
+// alternative of the default execution) to the context's worker pool. body must be safe to
+// run concurrently (all state per execution).
+func ExploreParallel(c *Ctx, bound int, body func(m *MC)) ExploreStats {
+	var total ExploreStats
+	root := &MC{}
+	body(root)
+	total.Executions = 1
+	total.MaxPoints = len(root.Trace)
+	if bound == 0 {
+		return total
+	}
+	choices := root.Choices()
+	var shards [][]int
+	for i := range root.Trace {
+		for alt := 1; alt < root.Trace[i].N; alt++ {
+			shards = append(shards, append(append([]int{}, choices[:i]...), alt))
+		}
+	}
+	stats := make([]ExploreStats, len(shards))
+	c.Parallel(len(shards), func(i int) {
+		stats[i] = ExploreFrom(shards[i], 1, bound, 0, c.Expired, body)
+	})
+	for _, s := range stats {
+		total.Executions += s.Executions
+		if s.MaxPoints > total.MaxPoints {
+			total.MaxPoints = s.MaxPoints
+		}
+		if s.Capped {
+			total.Capped = true
+		}
+	}
+	if c.Expired() {
+		total.Capped = true
+	}
+	return total
 }
 
 // ReplayChoices runs body once on a fixed choice sequence.
